@@ -30,6 +30,7 @@ func (d *Drv) Exec(op *Op, x *Exp, opIdx int) (res Result) {
 	}
 	d.cbSeen = nil
 	d.triedStructural = false
+	d.leaked = false
 	d.Stat.Ops[op.K]++
 	d.Stat.Paths[op.Path]++
 	func() {
@@ -90,6 +91,7 @@ func (d *Drv) batchCbPtrs(op *Op, x *Exp, cs []int) func(ecs.Entity, typed.Ptrs)
 			d.viol("C09", "batch-cb-unlocked", "world not locked inside batch callback")
 		}
 		d.structuralRejected("batch callback")
+		d.leakQuery(op)
 		if !d.W.Alive(h) {
 			d.viol("C06", "batch-cb-dead", "batch callback for dead entity %v", h)
 			return
@@ -115,8 +117,23 @@ func (d *Drv) batchCbEnt(x *Exp) func(ecs.Entity) {
 			d.viol("C09", "batch-cb-unlocked", "world not locked inside batch callback")
 		}
 		d.structuralRejected("batch callback")
+		d.leakQuery(x.Op)
 	}
 }
+
+// leakQuery opens the op's Leak query from inside a batch-creation callback (first invocation
+// only) and leaves it open: its lifetime overlaps the library's internal callback lock. Creation
+// callbacks run after all structural work of the operation, so the query sees the final state.
+func (d *Drv) leakQuery(op *Op) {
+	if op.Leak == nil || d.leaked || op.K != KNewBatch {
+		return
+	}
+	d.leaked = true
+	d.openQuery(op.Leak)
+}
+
+// Leaked reports whether the last op left its Leak query open.
+func (d *Drv) Leaked() bool { return d.leaked }
 
 // structuralRejected attempts one structure-changing operation inside a locked callback (first
 // invocation per op only): it must panic; the sweep after the op proves it had no effect.
